@@ -18,7 +18,7 @@ RULE = ('include: 1-4 search locations x 1-3 readers (the default open() over a 
         'config (flattening done by the harness with its own location-major resolution rule). non-trivial = the same '
         'relative name readable through >= 2 (location, reader) pairs, or an include with conflicting bindings on both sides.')
 TRUSTED_BASE = c16.TRUSTED_BASE
-ASSUMPTIONS = ['package-relative names (gin/resource_reader.py) are exercised with one generated package in the thorough tier only',
+ASSUMPTIONS = ['package-relative names (gin/resource_reader.py) are exercised on the implementation only (engines package-names, package-portions: real directories and sys.path; importlib is not modelled)',
                'finalization inside parse_config_files_and_bindings is modelled as locking only; the generator keeps such configs free of macros and hooks']
 
 BINDS = [('f', 'a'), ('f', 'b'), ('m.f', 'c'), ('g', 'a'), ('k', 'zz')]
@@ -368,4 +368,336 @@ class PackageNameEngine(Engine):
     return {'obs': T('Done'), 'fails': fails, 'nontrivial': True, 'tags': [sc]}
 
 
-ENGINES = [IncludeEngine(), PackageNameEngine()]
+PP_PARAMS = ['a', 'b', 'c']
+PP_FILES = ['f0.gin', 'f1.gin', 'f2.gin', 'f3.gin']
+PP_PKGS = [['c14ns'], ['c14ns', 'conf'], ['c14ns', 'conf', 'deep']]
+PP_LOC_OFFSET = 9000
+
+
+def pp_portions(case):
+  """The directories that make up the package, in Python-path order, by PEP 420 / the import system's rule, computed
+  from the generated layout alone (never from importlib): walking the parent's path in order, the first directory
+  holding an __init__.py IS the package (a regular package: one directory); if there is none, every directory of that
+  name is a portion of a namespace package.  Returned as indices of the sys.path roots."""
+  path = list(range(len(case['roots'])))
+  for level in range(len(case['pkg'])):
+    cands = [r for r in path if case['roots'][r]['has'] > level]
+    regular = [r for r in cands if level in case['roots'][r]['init']]
+    if regular:
+      path = [regular[0]]
+    elif cands:
+      path = cands
+    else:
+      return []
+  return path
+
+
+def pp_physical(case, r, fname):
+  return case['roots'][r]['has'] == len(case['pkg']) and r in case['files'].get(fname, {'at': []})['at']
+
+
+def pp_locate(case, fname):
+  """the property's rule for the relative name <pkg>/<fname>: each search location in the order registered, the current
+  directory first, and within a location the plain reader before the Python-path reader; through the Python path a file
+  of a package is found in the first of the package's directories that has it."""
+  if case['cwd'] is not None and pp_physical(case, case['cwd'], fname):
+    return ['root', case['cwd']]
+  for r in pp_portions(case):
+    if pp_physical(case, r, fname):
+      return ['root', r]
+  if case['loc'] is not None and fname in case['loc']:
+    return ['loc']
+  return None
+
+
+def pp_offset(where):
+  return PP_LOC_OFFSET if where[0] == 'loc' else 1000 * (where[1] + 1)
+
+
+class PPUnreadable(Exception):
+  pass
+
+
+def pp_expect(case):
+  """the flattened reading of the call, done by the harness: (state of pf's parameters, returned tree(s), the name
+  nobody can read or None, physical copies read)."""
+  state = {}
+  read = []
+  prefix = '/'.join(case['pkg']) + '/'
+
+  def run_file(fname):
+    where = pp_locate(case, fname)
+    if where is None:
+      raise PPUnreadable(prefix + fname)
+    read.append(where)
+    off = pp_offset(where)
+    imports, includes = [], []
+    for it in case['files'][fname]['items']:
+      if it[0] == 'bind':
+        state[it[1]] = it[2] + off
+      elif it[0] == 'import':
+        imports.append(it[1])
+      else:
+        includes.append(run_file(it[1]))
+    return [prefix + fname, imports, includes]
+  call = case['call']
+  trees, unreadable = [], None
+  try:
+    if call[0] == 'file':
+      trees.append(run_file(call[1]))
+    elif call[0] == 'text':
+      state['a'] = -1
+      trees.append(run_file(call[1]))
+      state['b'] = -2
+    else:
+      for f in call[1]:
+        trees.append(run_file(f))
+      for p, v in call[2]:
+        state[p] = v
+  except PPUnreadable as e:
+    unreadable = str(e)
+  return state, trees, unreadable, read
+
+
+class PackagePortionsEngine(Engine):
+  """package-relative names whose package is spread over several entries of the Python path (PEP 420 namespace packages,
+  1-3 levels deep), mixed with regular packages that shadow / are shadowed, with each config file present in any subset
+  of the package's directories (every physical copy binds different values, so the copy that was read is observable),
+  named directly, through parse_config_files_and_bindings, from a config string, and as the target of includes to depth 3
+  with conflicting bindings around them; optionally the current directory is one of the roots and one more search
+  location is registered.  Real directories, real sys.path, implementation only (importlib is not modelled)."""
+  name = 'package-portions'
+  model = False
+  rule = ('package-relative names x Python path: 1-4 sys.path roots each holding 0..all levels of the package directory '
+          '(with or without __init__.py at each level), config files in any subset of the roots with different values per '
+          'copy, includes between them to depth 3, cwd = neutral dir or one of the roots, optional extra search location; '
+          'entry points: parse_config_file / parse_config / parse_config_files_and_bindings. Independent oracle: the harness '
+          'flattens the include tree with its own resolution (location-major; within the Python path the first directory '
+          'of the package, PEP 420 rule computed from the layout) and interprets the bindings itself. non-trivial = some '
+          'file is read from a directory of the package other than its first one, or nobody can read a name.')
+
+  def budget(self, tier):
+    return 160 if tier == 'quick' else 4000
+
+  def corpus(self):
+    ns3 = [{'has': 2, 'init': []}, {'has': 2, 'init': []}, {'has': 2, 'init': []}]
+    return [
+        # a file in the third portion of a namespace package, named directly
+        {'pkg': ['c14ns', 'conf'], 'roots': copy.deepcopy(ns3), 'path_mode': 'back', 'cwd': None, 'loc': None,
+         'files': {'f0.gin': {'items': [['bind', 'a', 5]], 'at': [2]}},
+         'call': ['file', 'f0.gin']},
+        # an include chain first -> second -> third portion through the multi-file entry point, bindings on both sides
+        {'pkg': ['c14ns', 'conf'], 'roots': copy.deepcopy(ns3), 'path_mode': 'back', 'cwd': None, 'loc': None,
+         'files': {'f0.gin': {'items': [['bind', 'a', 1], ['bind', 'b', 2], ['include', 'f1.gin'], ['bind', 'c', 3]], 'at': [0]},
+                   'f1.gin': {'items': [['import', 'time'], ['bind', 'b', 4], ['bind', 'c', 5], ['include', 'f2.gin']], 'at': [1]},
+                   'f2.gin': {'items': [['bind', 'a', 6]], 'at': [2]}},
+         'call': ['fab', ['f0.gin'], [['b', 77]]]},
+        # the file is in the second and third of three portions (second wins), included from a config string; one-level
+        # package at the front of the Python path; then a nested name that is in no portion at all
+        {'pkg': ['c14ns'], 'roots': [{'has': 1, 'init': []}, {'has': 1, 'init': []}, {'has': 1, 'init': []}, {'has': 0, 'init': []}],
+         'path_mode': 'front', 'cwd': None, 'loc': None,
+         'files': {'f0.gin': {'items': [['bind', 'c', 9], ['include', 'f1.gin'], ['bind', 'a', 8]], 'at': [1, 2]},
+                   'f1.gin': {'items': [['bind', 'c', 10]], 'at': []}},
+         'call': ['text', 'f0.gin']},
+    ]
+
+  def gen(self, rng, tier):
+    pkg = list(rng.choice(PP_PKGS))
+    depth = len(pkg)
+    nroots = rng.choice([1, 2, 2, 3, 3, 3, 4])
+    roots = []
+    for _ in range(nroots):
+      has = depth if rng.random() < 0.75 else rng.randint(0, depth)
+      init = []
+      if rng.random() < 0.15:       # mostly namespace packages; sometimes a regular package at some level
+        init = sorted(rng.sample(range(has), rng.randint(1, has))) if has else []
+      roots.append({'has': has, 'init': init})
+    full = [r for r in range(nroots) if roots[r]['has'] == depth]
+    nfiles = rng.randint(1, 4)
+    names = PP_FILES[:nfiles]
+    files = {}
+    for i, n in enumerate(names):
+      items = []
+      for _ in range(rng.randint(1, 4)):
+        x = rng.random()
+        later = names[i + 1:]
+        if x < 0.55 or not later:
+          items.append(['bind', rng.choice(PP_PARAMS), rng.randint(0, 99)])
+        else:
+          items.append(['include', rng.choice(later)])
+          if rng.random() < 0.7:
+            items.append(['bind', rng.choice(PP_PARAMS), rng.randint(100, 199)])
+      if rng.random() < 0.3:
+        items.insert(rng.randint(0, len(items)), ['import', rng.choice(['time', 'json', 'os.path'])])
+      if not full or rng.random() < 0.12:
+        at = []                     # in no directory of the package
+      elif rng.random() < 0.4:
+        at = [full[-1]]             # only in the last directory
+      else:
+        at = sorted(r for r in full if rng.random() < 0.5) or [rng.choice(full)]
+      files[n] = {'items': items, 'at': at}
+    cwd = rng.choice(range(nroots)) if rng.random() < 0.2 else None
+    loc = sorted(n for n in names if rng.random() < 0.5) if rng.random() < 0.25 else None
+    x = rng.random()
+    if x < 0.45:
+      call = ['file', names[0]]
+    elif x < 0.65:
+      call = ['text', names[0]]
+    else:
+      flist = [names[0]] + ([rng.choice(names)] if rng.random() < 0.5 else [])
+      call = ['fab', flist, [[rng.choice(PP_PARAMS), 777]] if rng.random() < 0.7 else []]
+    return {'pkg': pkg, 'roots': roots, 'path_mode': rng.choice(['front', 'back', 'split']), 'cwd': cwd, 'loc': loc,
+            'files': files, 'call': call}
+
+  def shrink(self, case):
+    for n in case['files']:
+      for i in range(len(case['files'][n]['items'])):
+        c = copy.deepcopy(case)
+        del c['files'][n]['items'][i]
+        yield c
+      for r in case['files'][n]['at']:
+        c = copy.deepcopy(case)
+        c['files'][n]['at'].remove(r)
+        yield c
+    if case['loc'] is not None:
+      c = copy.deepcopy(case)
+      c['loc'] = None
+      yield c
+    if case['cwd'] is not None:
+      c = copy.deepcopy(case)
+      c['cwd'] = None
+      yield c
+
+  def impl(self, case):
+    import importlib
+    import os
+    import shutil
+    import sys
+    import tempfile
+    d = os.path.realpath(tempfile.mkdtemp(prefix='ginverif_pp_'))
+    old_cwd, old_path = os.getcwd(), list(sys.path)
+    fails, tags = [], []
+    pkg = case['pkg']
+    prefix = '/'.join(pkg) + '/'
+    rootdir = lambda r: os.path.join(d, 'p%d' % r)
+    locdir = os.path.join(d, 'loc')
+
+    def render_copy(fname, off):
+      out = []
+      for it in case['files'][fname]['items']:
+        if it[0] == 'bind':
+          out.append('pf.%s = %d' % (it[1], it[2] + off))
+        elif it[0] == 'import':
+          out.append('import ' + it[1])
+        else:
+          out.append("include '%s%s'" % (prefix, it[1]))
+      return '\n'.join(out) + '\n'
+
+    def write(path, text):
+      os.makedirs(os.path.dirname(path), exist_ok=True)
+      with open(path, 'w') as f:
+        f.write(text)
+    try:
+      os.makedirs(os.path.join(d, 'run'))
+      for r, root in enumerate(case['roots']):
+        os.makedirs(rootdir(r))
+        for level in range(root['has']):
+          os.makedirs(os.path.join(rootdir(r), *pkg[:level + 1]))
+          if level in root['init']:
+            write(os.path.join(rootdir(r), *(pkg[:level + 1] + ['__init__.py'])), '')
+      for n, f in case['files'].items():
+        for r in f['at']:
+          assert case['roots'][r]['has'] == len(pkg), 'generator: file placed outside a package directory'
+          write(os.path.join(rootdir(r), *(pkg + [n])), render_copy(n, pp_offset(['root', r])))
+      if case['loc'] is not None:
+        os.makedirs(locdir)
+        for n in case['loc']:
+          write(os.path.join(locdir, *(pkg + [n])), render_copy(n, PP_LOC_OFFSET))
+      os.chdir(os.path.join(d, 'run') if case['cwd'] is None else rootdir(case['cwd']))
+      rds = [rootdir(r) for r in range(len(case['roots']))]
+      if case['path_mode'] == 'front':
+        sys.path[0:0] = rds
+      elif case['path_mode'] == 'back':
+        sys.path.extend(rds)
+      else:
+        sys.path[0:0] = rds[:1]
+        sys.path.extend(rds[1:])
+      importlib.invalidate_caches()
+      gin = C.fresh_gin()
+
+      @gin.configurable
+      def pf(a='unset', b='unset', c='unset'):
+        return {'a': a, 'b': b, 'c': c}
+      if case['loc'] is not None:
+        gin.add_config_file_search_path(locdir)
+
+      want_state, want_trees, unreadable, read = pp_expect(case)
+      want = {p: want_state.get(p, 'unset') for p in PP_PARAMS}
+      tree = lambda t: [t.filename, list(t.imports), [tree(i) for i in t.includes]]
+      call = case['call']
+      got_trees, err = None, None
+      try:
+        if call[0] == 'file':
+          got_trees = [tree(gin.parse_config_file(prefix + call[1]))]
+        elif call[0] == 'text':
+          incs, imps = gin.parse_config("pf.a = -1\ninclude '%s%s'\npf.b = -2\n" % (prefix, call[1]))
+          got_trees = [tree(i) for i in incs]
+          if list(imps):
+            fails.append(('include-tree', 'the config string imports nothing itself, yet its imports are %r' % (list(imps),)))
+        else:
+          got_trees = [tree(t) for t in gin.parse_config_files_and_bindings(
+              [prefix + f for f in call[1]], ['pf.%s = %d' % (p, v) for p, v in call[2]])]
+      except OSError as e:
+        err = ('OSError', str(e))
+      except Exception as e:  # pylint: disable=broad-except
+        err = (type(e).__name__, str(e)[:300])
+      try:
+        got = pf()
+      except Exception as e:  # pylint: disable=broad-except
+        got = 'pf() raised %s: %s' % (type(e).__name__, str(e)[:200])
+      layout = 'package directories in Python-path order: %r; copies read by the property\'s rule: %r' % (
+          ['p%d' % r for r in pp_portions(case)], read)
+      if unreadable is None:
+        if err is not None:
+          fails.append(('package-relative-name', 'every name is readable through the Python path, yet %s: %s (%s)' %
+                        (err[0], err[1], layout)))
+        else:
+          if got != want:
+            fails.append(('package-relative-name', 'parameters of pf after the parse: %r, the flattened reading gives %r (%s)' %
+                          (got, want, layout)))
+          if got_trees != want_trees:
+            fails.append(('include-tree', 'returned %r, the include tree is %r' % (got_trees, want_trees)))
+          if call[0] == 'fab' and not gin.config_is_locked():
+            fails.append(('entry-point-finalize-default', 'parse_config_files_and_bindings left the config unlocked'))
+      else:
+        tags.append('missing')
+        if err is None or err[0] != 'OSError':
+          fails.append(('missing-file-not-reported', '%r is in no directory anyone searches, outcome %r (%s)' %
+                        (unreadable, err or got_trees, layout)))
+        else:
+          if unreadable not in err[1]:
+            fails.append(('missing-file-not-reported', 'the error does not name %r: %s' % (unreadable, err[1])))
+          if case['loc'] is not None and locdir not in err[1]:
+            fails.append(('missing-file-not-reported', 'the error does not name the searched location %r: %s' % (locdir, err[1])))
+          if got != want:
+            fails.append(('missing-file-applied-something', 'parameters of pf after the failed parse: %r, the statements before '
+                          'the unreadable name give %r (%s)' % (got, want, layout)))
+      later = [w for w in read if w[0] == 'root' and pp_portions(case) and w[1] in pp_portions(case)[1:]
+               and w[1] != case['cwd']]
+      if later:
+        tags.append('later-portion')
+      if len(pp_portions(case)) >= 2:
+        tags.append('multi-portion')
+      tags.append(call[0])
+    finally:
+      os.chdir(old_cwd)
+      sys.path[:] = old_path
+      for m in [m for m in sys.modules if m == pkg[0] or m.startswith(pkg[0] + '.')]:
+        del sys.modules[m]
+      for k in [k for k in sys.path_importer_cache if k.startswith(d)]:
+        del sys.path_importer_cache[k]
+      shutil.rmtree(d, ignore_errors=True)
+    return {'obs': T('Done'), 'fails': fails[:3], 'nontrivial': bool(later) or unreadable is not None, 'tags': tags}
+
+
+ENGINES = [IncludeEngine(), PackageNameEngine(), PackagePortionsEngine()]
